@@ -112,7 +112,7 @@ impl Check for C08 {
             if r.below(3) == 0 {
                 tail.push(Step::Delete { side, path });
             } else {
-                let content = if r.below(6) == 0 { 100 + r.below(2) as u32 } else { r.below(u64::from(hist.ncontents)) as u32 };
+                let content = if r.below(5) == 0 { 100 + r.below(3) as u32 } else { r.below(u64::from(hist.ncontents)) as u32 }; // (102 = the empty file)
                 tail.push(Step::Write { side, path, content });
             }
         }
@@ -191,10 +191,14 @@ impl Check for C08 {
                     _ => {}
                 }
             }
-            for (ino, (wseq, wpath)) in &last_write {
-                let Some((rseq, dst)) = renamed_into.get(ino) else {
-                    continue; // never published (e.g. removed again)
-                };
+            // every file published by a rename during the run — written to or not (an empty file has
+            // no write call, but its existence still has to be flushed before it is recorded)
+            let empty_marker = (0u64, String::from("(never written: an empty file)"));
+            for (ino, (rseq, dst)) in &renamed_into {
+                let (wseq, wpath) = last_write.get(ino).unwrap_or(&empty_marker);
+                if !last_write.contains_key(ino) {
+                    rep.probe("empty_file_published", 1);
+                }
                 if *rseq > arc_seq {
                     rep.fail("c08.record_after_data", "archive-renamed-before-data-renamed",
                         format!("{dst:?} renamed into place at step {rseq}, archive recorded at step {arc_seq}"));
